@@ -175,7 +175,7 @@ typedef struct vp_std_string { char *p; uint64_t n; union { char buf[16]; uint64
 /* VP_CANDIDATE vp_exc_what p(p) */
 void *vp_exc_what(void *self) { return ((vp_std_exc *)self)->msg; }
 /* VP_CANDIDATE vp_exc_d1 v(p) */
-void vp_exc_d1(void *self) { vp_std_exc *e = (vp_std_exc *)self; free(e->msg); e->msg = 0; }
+void vp_exc_d1(void *self) { vp_std_exc *e = (vp_std_exc *)self; e->msg = 0; }
 /* VP_CANDIDATE vp_exc_d0 v(p) */
 void vp_exc_d0(void *self) { vp_exc_d1(self); free(self); }
 
@@ -201,18 +201,20 @@ static char *vp_dup(const char *s, uint64_t n)
 }
 static uint64_t vp_strlen(const char *s) { uint64_t n = 0; while (s[n]) ++n; return n; }
 
+/* the message text is not modelled (no property depends on its content): what() is a fixed
+   non-empty literal for the std::string constructors and the literal itself for char const* */
 static void vp_exc_ctor_str(void *self, void *str, void **vt)
 {
   vp_std_exc *e = (vp_std_exc *)self;
-  vp_std_string *s = (vp_std_string *)str;
+  (void)str;
   e->vptr = vt + 2;
-  e->msg = vp_dup(s->p, s->n);
+  e->msg = (char *)"(exception message not modelled)";
 }
 static void vp_exc_ctor_cstr(void *self, void *cstr, void **vt)
 {
   vp_std_exc *e = (vp_std_exc *)self;
   e->vptr = vt + 2;
-  e->msg = vp_dup((const char *)cstr, vp_strlen((const char *)cstr));
+  e->msg = (char *)cstr;
 }
 #define EXC_CLASS(mangled_len_name, vt) \
   void _ZNSt##mangled_len_name##C1ERKNSt7__cxx1112basic_stringIcSt11char_traitsIcESaIcEEE(void *self, void *str) { vp_exc_ctor_str(self, str, vt); } \
@@ -307,3 +309,6 @@ void *vp_libc_memchr(void *s, uint32_t c, uint64_t n)
       return x + i;
   return 0;
 }
+/* formatted output into a buffer is not modelled: the buffer becomes the empty string */
+uint32_t vp_libc_sprintf(void *buf, void *fmt, ...) { (void)fmt; ((char *)buf)[0] = 0; return 0; }
+uint32_t vp_libc_snprintf(void *buf, uint64_t n, void *fmt, ...) { (void)fmt; if (n) ((char *)buf)[0] = 0; return 0; }
